@@ -82,10 +82,12 @@ fn main() {
                     "c09" => (0..n).for_each(|i| {
                         // one body far above every buffer per 250 cases
                         if i % 250 == 7 { g::HUGE.with(|h| h.set(true)); }
+                        if i % 500 == 133 { g::HUGER.with(|h| h.set(true)); }
                         // an upgrade offer's body is the rest of the stream, taken up or not
                         if i % 20 == 11 { cases.push(g::gen_upgrade(&mut rng)); return; }
                         cases.push(g::gen_body(&mut rng, true, false))
                     }),
+                    "bigunread" => (0..n).for_each(|i| cases.push(g::gen_big_unread(&mut rng, i))),
                     "long" => (0..n).for_each(|i| cases.push(g::gen_long(&mut rng, i))),
                     "hold" => (0..n).for_each(|_| cases.push(g::gen_hold(&mut rng))),
                     "respfail" => (0..n).for_each(|_| cases.push(g::gen_respfail(&mut rng))),
